@@ -24,9 +24,9 @@ RULE = ("case = one sampler configuration (method, R, P, V, mask, assignment, sh
 ASSUMPTIONS = ["the array returned by generate_samples belongs to the caller (ropt itself adds the other samplers' output into it in place), so the harness overwrites it between calls",
                "non-shared realizations 'differ' is only required when R>=2 and at least one handled variable (probability of an accidental tie is negligible for continuous draws)"]
 REQUIRED = {"quick": {"calls_checked": 5000, "qmc_vectors_matched": 8000, "qmc_multidim_cases": 300, "lhs_strata_checked": 300, "shared_checked": 600,
-                      "unhandled_zero_entries": 5000, "e2e_checked": 150, "__nontrivial__": 1500},
+                      "unhandled_zero_entries": 5000, "e2e_checked": 150, "samplers_with_explicit_options": 60, "__nontrivial__": 1500},
             "thorough": {"calls_checked": 120000, "qmc_vectors_matched": 200000, "qmc_multidim_cases": 8000, "lhs_strata_checked": 8000, "shared_checked": 15000,
-                         "unhandled_zero_entries": 120000, "e2e_checked": 3000, "__nontrivial__": 40000}}
+                         "unhandled_zero_entries": 120000, "e2e_checked": 3000, "samplers_with_explicit_options": 1500, "__nontrivial__": 40000}}
 N = {"quick": 2000, "thorough": 50000}
 METHODS = ["norm", "uniform", "truncnorm", "sobol", "halton", "lhs", "default"]
 BOUNDED = {"uniform", "truncnorm", "sobol", "halton", "lhs"}
@@ -71,6 +71,26 @@ def run_case(case, obs):
             "seed": int(rng.integers(0, 10**6)), "ensemble": {"kind": "hash"}, "nan": []}
     samplers = [{"method": method if k == 0 else str(rng.choice(METHODS[:6])), "shared": shared if k == 0 else bool(rng.random() < 0.4)} for k in range(nsamp)]
     samplers[0]["method"] = ("scipy/" + method) if method == "default" or rng.random() < 0.3 else method
+    # explicit distribution options on some samplers (they must not leak into other samplers, now or later)
+    opt_range = None
+    for k, sm in enumerate(samplers):
+        base = sm["method"].split("/")[-1]
+        if base in ("uniform", "truncnorm") and rng.random() < 0.3:
+            if base == "uniform":
+                # ranges disjoint from the default [-1, 1]: ignoring the options, or leaking them into a default sampler, leaves the range
+                loc, sc = float(np.round(rng.choice([-1.0, 1.0]) * rng.uniform(1.5, 4), 2)), float(np.round(rng.uniform(0.5, 3), 2))
+                if loc < 0:
+                    loc = loc - sc
+                sm["options"] = {"loc": loc, "scale": sc}
+                rngk = (loc, loc + sc)
+            else:
+                a = float(np.round(rng.uniform(1.5, 2.5), 2))
+                b = float(np.round(a + rng.uniform(0.5, 2), 2))
+                sm["options"] = {"a": a, "b": b}
+                rngk = (a, b)
+            if k == 0:
+                opt_range = rngk
+            obs.count("samplers_with_explicit_options")
     spec["samplers"] = samplers
     smap = None
     if nsamp > 1 or rng.random() < 0.2:
@@ -136,8 +156,9 @@ def run_case(case, obs):
             if all(np.array_equal(h[0], h[r]) for r in range(1, R)):
                 obs.violation("nonshared_realizations_identical", method=m, call=k, R=R, P=P)
                 return
-        if m in BOUNDED and (h.min() < -1.0 or h.max() > 1.0):
-            obs.violation("out_of_range", method=m, min=float(h.min()), max=float(h.max()))
+        lo_hi = opt_range if opt_range is not None else (-1.0, 1.0)
+        if m in BOUNDED and (h.min() < lo_hi[0] or h.max() > lo_hi[1]):
+            obs.violation("out_of_range", method=m, min=float(h.min()), max=float(h.max()), expected_range=lo_hi, explicit_options=samplers[0].get("options"))
             return
         if m in QMC:
             # each perturbation vector is the [-1,1] image of exactly one engine point, each point used once (R times if shared)
